@@ -45,6 +45,9 @@ def run(ctx, selftest=False):
         if not (g["N"] == 1 and g["poly"] == 1 and g["noff"] == 0):
             ctx.nontrivial(str(sorted(g.items())) + str(sorted((k, str(v)) for k, v in c["ua"].items())) + str(c["nrows"]))
     ctx.sample(traces[0]); ctx.sample(traces[-1])
+    # off the lattice: generic phases exercise thejoker's own (pytensor) Kepler solver, which the lattice phases 0 and pi cannot;
+    # the oracle is the TLC-certified floating-point transcription of Gauss.tla with its independent Newton solver
+    gd.offlattice_mcmc(ctx, 16 if quick else 240)
     verdicts = ctx.validate("GaussTrace", traces, timeout=3000)
     ctx.judge(traces, verdicts, families=FAMILIES)
     if selftest or not quick:
